@@ -746,7 +746,11 @@ class Engine:
                 return udiv(xr, yr)
         if isinstance(op, ast.Mult): return x * y
         if isinstance(op, ast.Div):
-            return to_z3(x, REAL) / to_z3(y, REAL)
+            yr = to_z3(y, REAL)
+            if _mentions(yr, [z3.Real('INF')]):
+                # np.inf is the real constant INF; IEEE division of a finite value by infinity is exactly 0 (not 1/INF > 0)
+                return z3.If(yr == z3.Real('INF'), z3.RealVal(0), to_z3(x, REAL) / yr)
+            return to_z3(x, REAL) / yr
         if isinstance(op, ast.FloorDiv):
             if x.sort() == INT:
                 return x / y       # z3 int division is floor for positive divisor (documented assumption: divisor > 0)
@@ -1193,6 +1197,13 @@ class Engine:
                 continue
             raise OutOfSubset('import %s' % ast.unparse(node))
         return [(st, 'fall')]
+
+    def st_FunctionDef(self, node, st):
+        # a nested function definition: only allowed when the contract supplies a callee contract for it (its body is verified by its
+        # own contract, `<outer>.<inner>`); a nested def without one is out of the subset
+        if node.name in self.callees:
+            return [(st, 'fall')]
+        raise OutOfSubset('nested function %s without a callee contract' % node.name)
 
     def st_Pass(self, node, st):
         return [(st, 'fall')]
